@@ -281,6 +281,8 @@ struct simcfg {
 				* thread is in the middle of applying a response, and calls rtr_stop() right then */
 	/* fuzzing: raw answer bytes for queries with override AO_RAW, and raw bytes delivered while the client idles */
 	size_t (*rawgen)(struct sim *s, uint8_t *out, size_t cap, uint64_t fuzz_seed, int where);
+	long intr_at_byte; /* > 0: on connection intr_conn a receive call is interrupted (TR_INTR) exactly after this many delivered bytes */
+	long intr_conn;
 	uint64_t fuzz_seed;
 	bool raw_close_after;
 	/* outage window (virtual seconds relative to scenario start) for the expiry scenarios */
@@ -325,6 +327,7 @@ struct sim {
 	/* counters */
 	long tcalls; /* transport calls so far (open/send/recv) */
 	pid_t fsm_tid; /* kernel id of the thread that made the latest transport call */
+	bool intr_fired;
 	uint8_t slow_rest[40]; /* second part of an unsolicited PDU that is delivered in two parts (event kinds 8, 9) */
 	size_t slow_rest_len;
 	long slow_conn;
